@@ -19,13 +19,14 @@ import (
 func TestMain(m *testing.M) { ev.Main(m, "C09") }
 
 type commitStep struct {
-	Kind   string // async | sync | records | second-join | second-leave | sleep
-	Tag    int64  // unique tag: offsets are Tag*1000 + partition
-	Parts  []int32
-	Delay  time.Duration // broker-side delay of this commit's first arrival
-	Code   int16         // whole-response retriable coordinator error injected once (0 = none)
-	PCode  int16         // per-partition (first listed partition) non-retriable error injected once
-	Gap    time.Duration // app-side pause before the step
+	Kind  string // async | sync | records | second-join | second-leave | sleep
+	Tag   int64  // unique tag: offsets are Tag*1000 + partition
+	Parts []int32
+	Delay time.Duration // broker-side delay of this commit's first arrival
+	Code  int16         // whole-response retriable coordinator error injected once (0 = none)
+	PCode int16         // per-partition (first listed partition) non-retriable error injected once
+	Gap   time.Duration // app-side pause before the step
+	Ctx   time.Duration // deadline of the context handed to the commit call (0 = none)
 }
 
 type plan struct {
@@ -66,6 +67,7 @@ func genPlan(t *rapid.T) plan {
 			s.PCode = rapid.SampledFrom(partCodes).Draw(t, "pcode")
 		}
 		s.Gap = rapid.SampledFrom([]time.Duration{0, 0, time.Millisecond, 300 * time.Millisecond}).Draw(t, "gap")
+		s.Ctx = rapid.SampledFrom([]time.Duration{0, 0, 0, 0, time.Millisecond, 30 * time.Millisecond, 500 * time.Millisecond}).Draw(t, "ctx")
 		p.Steps = append(p.Steps, s)
 		if second && i == n/2 {
 			p.Steps = append(p.Steps, commitStep{Kind: "second-join"})
@@ -84,10 +86,17 @@ type outcome struct {
 	done   bool
 }
 
+// status of one commit for one partition
+const (
+	stFailed = iota // the coordinator did not apply it (it never got there, or the harness answered with an error)
+	stMaybe         // the client reported a failure, but a request carrying it was handed to the coordinator
+	stOK            // the client reported success
+)
+
 func TestCommitOrder(t *testing.T) {
 	rapid.Check(t, func(rt *rapid.T) {
 		p := genPlan(rt)
-		var delayedBehind, faults int
+		var delayedBehind, faults, nMaybe, nCtx int
 		bubble.Run(t, rt, func(e *bubble.Env) {
 			e.StartCluster(bubble.ClusterOpts{Brokers: p.Brokers, Topics: map[string]int32{"c": p.NParts}})
 			var mu sync.Mutex
@@ -99,6 +108,7 @@ func TestCommitOrder(t *testing.T) {
 				}
 			}
 			injected := map[int64]bool{}
+			passed := map[int64]bool{} // tag -> some request carrying it was handed to kfake's own handler
 			e.Cluster.ControlKey(int16(kmsg.OffsetCommit), func(kreq kmsg.Request) (kmsg.Response, error, bool) {
 				e.Cluster.KeepControl()
 				req := kreq.(*kmsg.OffsetCommitRequest)
@@ -116,12 +126,18 @@ func TestCommitOrder(t *testing.T) {
 				injected[tag] = true
 				mu.Unlock()
 				if st == nil || seen {
+					mu.Lock()
+					passed[tag] = true
+					mu.Unlock()
 					return nil, nil, false
 				}
 				if st.Delay > 0 {
 					e.Cluster.SleepControl(func() { time.Sleep(st.Delay) })
 				}
 				if inj {
+					mu.Lock()
+					passed[tag] = true
+					mu.Unlock()
 					return nil, nil, false
 				}
 				if st.Code != 0 || st.PCode != 0 {
@@ -152,6 +168,9 @@ func TestCommitOrder(t *testing.T) {
 					}
 					return resp, nil, true
 				}
+				mu.Lock()
+				passed[tag] = true
+				mu.Unlock()
 				return nil, nil, false
 			})
 			opts := []kgo.Opt{kgo.ConsumerGroup("g9"), kgo.ConsumeTopics("c"), kgo.ConsumeResetOffset(kgo.NewOffset().AtStart()), kgo.DisableAutoCommit(), kgo.Balancers(kgo.CooperativeStickyBalancer()), kgo.HeartbeatInterval(300 * time.Millisecond), kgo.SessionTimeout(20 * time.Second)}
@@ -214,18 +233,24 @@ func TestCommitOrder(t *testing.T) {
 					}
 					e.Log.Add("commit-done", s.Tag, "", err, 0, 0)
 				}
-				e.Log.Add("commit-issue", s.Tag, s.Kind, nil, 0, 0)
+				e.Log.Add("commit-issue", s.Tag, fmt.Sprintf("%s ctx=%v", s.Kind, s.Ctx), nil, 0, 0)
+				cctx := context.Background()
+				if s.Ctx > 0 {
+					var ccancel context.CancelFunc
+					cctx, ccancel = context.WithTimeout(cctx, s.Ctx)
+					e.OnTeardown(ccancel)
+				}
 				switch s.Kind {
 				case "async":
 					wg.Add(1)
-					cl.CommitOffsets(context.Background(), offs, func(c *kgo.Client, rq *kmsg.OffsetCommitRequest, rs *kmsg.OffsetCommitResponse, err error) {
+					cl.CommitOffsets(cctx, offs, func(c *kgo.Client, rq *kmsg.OffsetCommitRequest, rs *kmsg.OffsetCommitResponse, err error) {
 						onDone(c, rq, rs, err)
 						wg.Done()
 					})
 				case "sync":
-					cl.CommitOffsetsSync(context.Background(), offs, onDone)
+					cl.CommitOffsetsSync(cctx, offs, onDone)
 				case "records":
-					err := cl.CommitRecords(context.Background(), recs...)
+					err := cl.CommitRecords(cctx, recs...)
 					mu.Lock()
 					out.err, out.done = err, true
 					for _, pt := range s.Parts {
@@ -261,15 +286,50 @@ func TestCommitOrder(t *testing.T) {
 				}
 				last, lastTag = at, o.tag
 			}
-			// (2) broker state == last successful commit per partition; (3) CommittedOffsets agrees
+			// (2) broker state == last successful commit per partition; (3) CommittedOffsets agrees.
+			// A commit the client reported as failed although a request carrying it was handed to the
+			// coordinator (context expired mid-flight, coordinator-side rejection) may or may not have
+			// been applied, now or later: its offset stays an admissible final value.
+			status := func(o *outcome, pt int32) int {
+				if o.respOK[pt] {
+					return stOK
+				}
+				if passed[o.tag] {
+					return stMaybe
+				}
+				return stFailed
+			}
+			admissible := map[int32]map[int64]bool{} // partition -> admissible final offsets (-1 = none committed)
 			want := map[int32]int64{}
+			unsure := map[int32]bool{}
+			maybes := map[int32]map[int64]bool{}
+			for pt := int32(0); pt < p.NParts; pt++ {
+				admissible[pt] = map[int64]bool{-1: true}
+			}
 			for _, o := range outs {
 				if !o.done {
 					fail("commit %d never completed", o.tag)
 				}
-				for pt, ok := range o.respOK {
-					if ok {
-						want[pt] = o.tag*1000 + int64(pt)
+				for _, pt := range byTag[o.tag].Parts {
+					off := o.tag*1000 + int64(pt)
+					switch status(o, pt) {
+					case stOK:
+						admissible[pt] = map[int64]bool{off: true}
+						for m := range maybes[pt] {
+							admissible[pt][m] = true
+						}
+						want[pt] = off
+					case stMaybe:
+						// An abandoned request that reached the coordinator can be applied at any later
+						// time (after the client gave up on it, on a connection the client has already
+						// replaced), so it stays admissible even when successful commits follow.
+						admissible[pt][off] = true
+						if maybes[pt] == nil {
+							maybes[pt] = map[int64]bool{}
+						}
+						maybes[pt][off] = true
+						unsure[pt] = true
+						nMaybe++
 					}
 				}
 			}
@@ -303,15 +363,21 @@ func TestCommitOrder(t *testing.T) {
 				}
 			}
 			for pt := int32(0); pt < p.NParts; pt++ {
-				w, wok := want[pt]
 				g, gok := got[pt]
-				if wok != gok || w != g {
-					fail("partition %d: coordinator has committed offset %d (present=%v) but the last successful commit was %d (present=%v)", pt, g, gok, w, wok)
+				if !gok {
+					g = -1
+				}
+				if !admissible[pt][g] {
+					w, wok := want[pt]
+					fail("partition %d: coordinator has committed offset %d (-1 = none) but the last successful commit was %d (present=%v); admissible final values given unconfirmed commits: %v", pt, g, w, wok, admissible[pt])
 				}
 			}
 			if second == nil { // with a second member the first may not own every partition any more
 				co := cl.CommittedOffsets()["c"]
 				for pt, w := range want {
+					if unsure[pt] {
+						continue
+					}
 					if eo, ok := co[pt]; !ok || eo.Offset != w {
 						fail("partition %d: CommittedOffsets reports %v (present=%v) but the last successful commit was %d", pt, eo.Offset, ok, w)
 					}
@@ -337,6 +403,17 @@ func TestCommitOrder(t *testing.T) {
 		}
 		if faults > 0 {
 			ev.Class("commit-error-injected")
+		}
+		for _, st := range p.Steps {
+			if st.Ctx > 0 {
+				nCtx++
+			}
+		}
+		if nCtx > 0 {
+			ev.Class("commit-with-context-deadline")
+		}
+		if nMaybe > 0 {
+			ev.Class("commit-reported-failed-but-handed-to-coordinator")
 		}
 		ev.ClassN("commits", int64(len(p.Steps)))
 		if delayedBehind > 0 {
